@@ -5,57 +5,423 @@ package main
 //   func (sc *ReadWriteCloser) Closed() bool { return sc.ReadCloserClosed.Closed() <op> sc.WriteCloserClosed.Closed() }
 //
 // c19PairClosedAnd = true for `&&` (closed when both halves are), false for `||`.
+//
+// The fact is semantic, not syntactic: the body of Closed() is *interpreted* as a boolean function of the two
+// atoms R = <recv>.ReadCloserClosed.Closed() and W = <recv>.WriteCloserClosed.Closed() (all four assignments), and
+// the resulting truth table must be the one of R && W (-> true) or of R || W (-> false).  The interpreter accepts
+// return / if-else / early return / tagless or boolean switch / local boolean variables / named results / !, &&,
+// ||, ==, != / and calls into functions and methods of the same package (inlined, up to depth 4), so
+// `if !r.Closed() { return false }; return w.Closed()`, `return bothClosed(sc.ReadCloserClosed, sc.WriteCloserClosed)`
+// and the one-line `&&` give the same value.  Anything else it meets (another call, a loop, a field write, a
+// status query on something that is not one of the two halves) makes extraction fail, and so does any other truth
+// table (e.g. "only the reader counts").
 
 import (
 	"fmt"
 	"go/ast"
 	"go/token"
+	"strings"
 )
 
-func c19Half(e ast.Expr) string {
-	for {
-		p, ok := e.(*ast.ParenExpr)
-		if !ok {
-			break
+// c19Val is a value of the little interpreter: a boolean or a reference to an object ("$recv",
+// "$recv.ReadCloserClosed", ...)
+type c19Val struct {
+	isBool bool
+	b      bool
+	ref    string
+}
+
+type c19Interp struct {
+	r, w  bool                     // the current assignment of the two atoms
+	funcs map[string]*ast.FuncDecl // "name" / "Recv.name" of package internal/streams
+	err   string
+}
+
+const c19Recv = "$recv"
+
+func (in *c19Interp) bad(format string, a ...interface{}) c19Val {
+	if in.err == "" {
+		in.err = fmt.Sprintf(format, a...)
+	}
+	return c19Val{}
+}
+
+type c19Env map[string]c19Val
+
+func (in *c19Interp) eval(e ast.Expr, en c19Env, depth int) c19Val {
+	if in.err != "" {
+		return c19Val{}
+	}
+	switch x := e.(type) {
+	case *ast.ParenExpr:
+		return in.eval(x.X, en, depth)
+	case *ast.Ident:
+		switch x.Name {
+		case "true":
+			return c19Val{isBool: true, b: true}
+		case "false":
+			return c19Val{isBool: true, b: false}
 		}
-		e = p.X
+		if v, ok := en[x.Name]; ok {
+			return v
+		}
+		return in.bad("unknown identifier %s", x.Name)
+	case *ast.SelectorExpr:
+		v := in.eval(x.X, en, depth)
+		if in.err != "" {
+			return v
+		}
+		if v.isBool {
+			return in.bad("selector on a boolean: %s", exprString(x))
+		}
+		return c19Val{ref: v.ref + "." + x.Sel.Name}
+	case *ast.UnaryExpr:
+		if x.Op != token.NOT {
+			return in.bad("operator %s", x.Op)
+		}
+		v := in.eval(x.X, en, depth)
+		if in.err == "" && !v.isBool {
+			return in.bad("! on a non-boolean: %s", exprString(x))
+		}
+		v.b = !v.b
+		return v
+	case *ast.BinaryExpr:
+		a := in.eval(x.X, en, depth)
+		if in.err != "" {
+			return a
+		}
+		if !a.isBool {
+			return in.bad("%s on a non-boolean: %s", x.Op, exprString(x))
+		}
+		switch x.Op {
+		case token.LAND:
+			if !a.b {
+				return a
+			}
+		case token.LOR:
+			if a.b {
+				return a
+			}
+		case token.EQL, token.NEQ:
+		default:
+			return in.bad("operator %s", x.Op)
+		}
+		b := in.eval(x.Y, en, depth)
+		if in.err != "" {
+			return b
+		}
+		if !b.isBool {
+			return in.bad("%s on a non-boolean: %s", x.Op, exprString(x))
+		}
+		switch x.Op {
+		case token.EQL:
+			b.b = a.b == b.b
+		case token.NEQ:
+			b.b = a.b != b.b
+		}
+		return b
+	case *ast.CallExpr:
+		return in.call(x, en, depth)
 	}
-	c, ok := e.(*ast.CallExpr)
-	if !ok || len(c.Args) != 0 {
-		return "?"
+	return in.bad("expression %s", exprString(e))
+}
+
+func (in *c19Interp) call(c *ast.CallExpr, en c19Env, depth int) c19Val {
+	if depth >= 4 {
+		return in.bad("calls nested too deeply at %s", exprString(c))
 	}
-	return exprString(c.Fun)
+	var fd *ast.FuncDecl
+	callee := c19Env{}
+	switch f := c.Fun.(type) {
+	case *ast.Ident:
+		if _, local := en[f.Name]; local {
+			return in.bad("call of a local value %s", f.Name)
+		}
+		fd = in.funcs[f.Name]
+	case *ast.SelectorExpr:
+		x := in.eval(f.X, en, depth)
+		if in.err != "" {
+			return x
+		}
+		if x.isBool {
+			return in.bad("method call on a boolean: %s", exprString(c))
+		}
+		if f.Sel.Name == "Closed" && len(c.Args) == 0 {
+			switch x.ref {
+			case c19Recv + ".ReadCloserClosed":
+				return c19Val{isBool: true, b: in.r}
+			case c19Recv + ".WriteCloserClosed":
+				return c19Val{isBool: true, b: in.w}
+			}
+			return in.bad("status query on something other than the two halves: %s", exprString(c))
+		}
+		if x.ref != c19Recv {
+			return in.bad("call %s", exprString(c))
+		}
+		fd = in.funcs["ReadWriteCloser."+f.Sel.Name]
+		if fd != nil && len(fd.Recv.List) == 1 && len(fd.Recv.List[0].Names) == 1 {
+			callee[fd.Recv.List[0].Names[0].Name] = x
+		}
+	}
+	if fd == nil || fd.Body == nil {
+		return in.bad("call %s (not a function of this package)", exprString(c))
+	}
+	var params []string
+	for _, p := range fd.Type.Params.List {
+		if _, variadic := p.Type.(*ast.Ellipsis); variadic || len(p.Names) == 0 {
+			return in.bad("call %s (unnamed or variadic parameter)", exprString(c))
+		}
+		for _, n := range p.Names {
+			params = append(params, n.Name)
+		}
+	}
+	if len(params) != len(c.Args) {
+		return in.bad("call %s (argument count)", exprString(c))
+	}
+	for i, a := range c.Args {
+		v := in.eval(a, en, depth)
+		if in.err != "" {
+			return v
+		}
+		callee[params[i]] = v
+	}
+	return in.runFunc(fd, callee, depth+1)
+}
+
+// runFunc interprets a function with a single boolean result under the given bindings of receiver and parameters
+func (in *c19Interp) runFunc(fd *ast.FuncDecl, en c19Env, depth int) c19Val {
+	res := fd.Type.Results
+	if res == nil || len(res.List) != 1 || len(res.List[0].Names) > 1 || exprString(res.List[0].Type) != "bool" {
+		return in.bad("%s: not a function with a single bool result", fd.Name.Name)
+	}
+	named := ""
+	if len(res.List[0].Names) == 1 {
+		named = res.List[0].Names[0].Name
+		en[named] = c19Val{isBool: true}
+	}
+	v, returned := in.exec(fd.Body.List, en, named, depth)
+	if in.err != "" {
+		return c19Val{}
+	}
+	if !returned {
+		return in.bad("%s: falls off the end", fd.Name.Name)
+	}
+	if !v.isBool {
+		return in.bad("%s: returns a non-boolean", fd.Name.Name)
+	}
+	return v
+}
+
+func (in *c19Interp) assign(lhs []ast.Expr, rhs []ast.Expr, en c19Env, depth int) {
+	if len(lhs) != len(rhs) {
+		in.bad("assignment with %d left and %d right sides", len(lhs), len(rhs))
+		return
+	}
+	vals := make([]c19Val, len(rhs))
+	for i, r := range rhs {
+		vals[i] = in.eval(r, en, depth)
+		if in.err != "" {
+			return
+		}
+	}
+	for i, l := range lhs {
+		id, ok := l.(*ast.Ident)
+		if !ok {
+			in.bad("assignment to %s", exprString(l))
+			return
+		}
+		if id.Name != "_" {
+			en[id.Name] = vals[i]
+		}
+	}
+}
+
+// exec runs a statement list; returned tells that a return statement was reached (with its value).  Scoping is
+// flattened (one environment per function), which is exact for the shadow-free code this is meant for.
+func (in *c19Interp) exec(stmts []ast.Stmt, en c19Env, named string, depth int) (c19Val, bool) {
+	for _, st := range stmts {
+		if in.err != "" {
+			return c19Val{}, false
+		}
+		switch s := st.(type) {
+		case *ast.EmptyStmt:
+		case *ast.ReturnStmt:
+			if len(s.Results) == 0 && named != "" {
+				return en[named], true
+			}
+			if len(s.Results) != 1 {
+				return in.bad("return with %d results", len(s.Results)), false
+			}
+			return in.eval(s.Results[0], en, depth), true
+		case *ast.BlockStmt:
+			if v, r := in.exec(s.List, en, named, depth); r || in.err != "" {
+				return v, r
+			}
+		case *ast.AssignStmt:
+			if s.Tok != token.DEFINE && s.Tok != token.ASSIGN {
+				return in.bad("assignment operator %s", s.Tok), false
+			}
+			in.assign(s.Lhs, s.Rhs, en, depth)
+		case *ast.DeclStmt:
+			gd, ok := s.Decl.(*ast.GenDecl)
+			if !ok || gd.Tok != token.VAR {
+				return in.bad("declaration"), false
+			}
+			for _, sp := range gd.Specs {
+				vs := sp.(*ast.ValueSpec)
+				if len(vs.Values) == 0 {
+					if vs.Type == nil || exprString(vs.Type) != "bool" {
+						return in.bad("variable of a type other than bool without a value"), false
+					}
+					for _, n := range vs.Names {
+						en[n.Name] = c19Val{isBool: true}
+					}
+					continue
+				}
+				lhs := make([]ast.Expr, len(vs.Names))
+				for i, n := range vs.Names {
+					lhs[i] = n
+				}
+				in.assign(lhs, vs.Values, en, depth)
+			}
+		case *ast.IfStmt:
+			if s.Init != nil {
+				if v, r := in.exec([]ast.Stmt{s.Init}, en, named, depth); r || in.err != "" {
+					return v, r
+				}
+			}
+			c := in.eval(s.Cond, en, depth)
+			if in.err != "" {
+				return c, false
+			}
+			if !c.isBool {
+				return in.bad("non-boolean condition %s", exprString(s.Cond)), false
+			}
+			if c.b {
+				if v, r := in.exec(s.Body.List, en, named, depth); r || in.err != "" {
+					return v, r
+				}
+			} else if s.Else != nil {
+				if v, r := in.exec([]ast.Stmt{s.Else}, en, named, depth); r || in.err != "" {
+					return v, r
+				}
+			}
+		case *ast.SwitchStmt:
+			if s.Init != nil {
+				if v, r := in.exec([]ast.Stmt{s.Init}, en, named, depth); r || in.err != "" {
+					return v, r
+				}
+			}
+			tag := c19Val{isBool: true, b: true}
+			if s.Tag != nil {
+				tag = in.eval(s.Tag, en, depth)
+				if in.err == "" && !tag.isBool {
+					return in.bad("switch on a non-boolean"), false
+				}
+			}
+			var chosen, dflt *ast.CaseClause
+		clauses:
+			for _, cs := range s.Body.List {
+				cc := cs.(*ast.CaseClause)
+				if cc.List == nil {
+					dflt = cc
+					continue
+				}
+				for _, ce := range cc.List {
+					v := in.eval(ce, en, depth)
+					if in.err != "" {
+						return v, false
+					}
+					if !v.isBool {
+						return in.bad("non-boolean case %s", exprString(ce)), false
+					}
+					if v.b == tag.b {
+						chosen = cc
+						break clauses
+					}
+				}
+			}
+			if chosen == nil {
+				chosen = dflt
+			}
+			if chosen != nil {
+				for _, b := range chosen.Body {
+					if br, ok := b.(*ast.BranchStmt); ok {
+						return in.bad("%s in a switch", br.Tok), false
+					}
+				}
+				if v, r := in.exec(chosen.Body, en, named, depth); r || in.err != "" {
+					return v, r
+				}
+			}
+		default:
+			return in.bad("statement at %s", fset.Position(st.Pos())), false
+		}
+	}
+	return c19Val{}, false
+}
+
+// c19PairClosedTable interprets ReadWriteCloser.Closed() for the four assignments of (reader closed, writer closed);
+// the result is indexed r*2+w.
+func c19PairClosedTable() (tab [4]bool, problem string) {
+	funcs := map[string]*ast.FuncDecl{}
+	for _, f := range goFiles("internal/streams") {
+		af := parse(f)
+		if af == nil {
+			continue
+		}
+		for _, d := range af.Decls {
+			fd, ok := d.(*ast.FuncDecl)
+			if !ok {
+				continue
+			}
+			if fd.Recv == nil {
+				funcs[fd.Name.Name] = fd
+			} else if len(fd.Recv.List) == 1 {
+				funcs[typeName(fd.Recv.List[0].Type)+"."+fd.Name.Name] = fd
+			}
+		}
+	}
+	fd := funcs["ReadWriteCloser.Closed"]
+	if fd == nil || fd.Body == nil {
+		return tab, "method not found"
+	}
+	if fd.Type.Params != nil && len(fd.Type.Params.List) != 0 {
+		return tab, "has parameters"
+	}
+	for i := 0; i < 4; i++ {
+		in := &c19Interp{r: i&2 != 0, w: i&1 != 0, funcs: funcs}
+		en := c19Env{}
+		if len(fd.Recv.List[0].Names) == 1 {
+			en[fd.Recv.List[0].Names[0].Name] = c19Val{ref: c19Recv}
+		}
+		v := in.runFunc(fd, en, 0)
+		if in.err != "" {
+			return tab, in.err
+		}
+		tab[i] = v.b
+	}
+	return tab, ""
 }
 
 func init() {
 	extractors = append(extractors, func(o *out) {
 		b := o.w("C19.lean")
-		fd := findFunc(parse("internal/streams/readerwriter_stream.go"), "ReadWriteCloser", "Closed")
 		and := true
-		ok := false
-		if fd != nil && fd.Body != nil && len(fd.Body.List) == 1 && fd.Recv != nil && len(fd.Recv.List) == 1 && len(fd.Recv.List[0].Names) == 1 {
-			rn := fd.Recv.List[0].Names[0].Name
-			if rs, isRet := fd.Body.List[0].(*ast.ReturnStmt); isRet && len(rs.Results) == 1 {
-				e := rs.Results[0]
-				for {
-					p, isP := e.(*ast.ParenExpr)
-					if !isP {
-						break
-					}
-					e = p.X
-				}
-				if be, isBin := e.(*ast.BinaryExpr); isBin && (be.Op == token.LAND || be.Op == token.LOR) {
-					x, y := c19Half(be.X), c19Half(be.Y)
-					r, w := rn+".ReadCloserClosed.Closed", rn+".WriteCloserClosed.Closed"
-					if (x == r && y == w) || (x == w && y == r) {
-						ok = true
-						and = be.Op == token.LAND
-					}
-				}
+		tab, problem := c19PairClosedTable()
+		switch {
+		case problem != "":
+			fail("readerwriter_stream.go ReadWriteCloser.Closed: not a boolean combination of <recv>.ReadCloserClosed.Closed() and <recv>.WriteCloserClosed.Closed() the extractor can evaluate: %s", problem)
+		case tab == [4]bool{false, false, false, true}:
+			and = true
+		case tab == [4]bool{false, true, true, true}:
+			and = false
+		default:
+			var rows []string
+			for i, v := range tab {
+				rows = append(rows, fmt.Sprintf("reader=%v,writer=%v->%v", i&2 != 0, i&1 != 0, v))
 			}
-		}
-		if !ok {
-			fail("readerwriter_stream.go ReadWriteCloser.Closed: not `return <recv>.ReadCloserClosed.Closed() &&/|| <recv>.WriteCloserClosed.Closed()`")
+			fail("readerwriter_stream.go ReadWriteCloser.Closed: neither the conjunction nor the disjunction of the two halves' status: %s", strings.Join(rows, " "))
 		}
 		fmt.Fprintf(b, "/-- internal/streams/readerwriter_stream.go ReadWriteCloser.Closed(): the two halves' status is combined with `&&` (true) or `||` (false) -/\ndef c19PairClosedAnd : Bool := %v\n", and)
 		// the delegating wrappers (Named*, SimulatedConnection, StreamWrappedConnection) have no Close / Closed of their
